@@ -360,7 +360,7 @@ def run(ctx, params):
     gen = treegen.Gen()
     Node.store.clear()  # start every shard from an empty registry (harness hygiene, not an operation under test)
     if params.get("histories"):
-        id_space_stress(ctx, 150_000 if ctx.tier == "quick" else 300_000)
+        id_space_stress(ctx, 250_000 if ctx.tier == "quick" else 400_000)
     for h in range(params["histories"]):
         ctx.case(one_history, ctx, gen, h, seconds=60.0)
         ctx.count("histories")
